@@ -25,10 +25,13 @@ def stepIn (st : St) (i : Input) : St := (sysStep st i.ext i.routed i.face i.nam
 def runHistory (st : St) (h : List Input) : St := h.foldl stepIn st
 
 theorem wf_init (lh : Bool) : StWF (init lh) := by
-  refine ⟨?_, by simp [init], by simp [init, maxInt]⟩
-  intro f hf _
-  simp [init, initFaces, mkHook] at hf
-  rcases hf with rfl | rfl | rfl | rfl | rfl | rfl <;> rfl
+  refine ⟨⟨?_, ?_⟩, by simp [init], by simp [init, maxInt]⟩
+  · intro f hf hs
+    simp [init, initFaces, mkHook] at hf
+    rcases hf with rfl | rfl | rfl | rfl | rfl | rfl | rfl <;> first | rfl | (simp [schemeUpdatable] at hs)
+  · intro f hf
+    simp [init, initFaces, mkHook] at hf
+    rcases hf with rfl | rfl | rfl | rfl | rfl | rfl | rfl <;> simp [init]
 
 /-- `usable` (every chosen strategy is instantiated, every face MTU carries a packet, capacity ≥ 0)
     holds initially -/
@@ -43,62 +46,122 @@ theorem faceAfter_scheme (f : Face) (a : Args) :
       simp [applyFlags] <;> (repeat' split) <;> rfl
   exact ⟨by simp [schemeUpdatable, h], (faceAfter_keep f a).2⟩
 
+theorem effect_facesWF (t : Tables) (f : Nat) (v : Verb) (a : Args) (n : Nat) (h : FacesWF t.faces) :
+    FacesWF (effect t f v a n).t.faces := by
+  cases v <;> simp only [effect]
+  case csConfig => cases a.capacity <;> exact h
+  case faceUpdate =>
+    cases hg : faceGet t.faces (targetFace a f) with
+    | none => exact h
+    | some fc =>
+      intro g hgm hgs
+      rcases mem_faceSet hgm with hm | rfl
+      · exact h g hm hgs
+      · rw [← faceAfter_eq] at hgs ⊢
+        rw [(faceAfter_scheme fc a).1] at hgs
+        rw [(faceAfter_scheme fc a).2]
+        exact h fc (faceGet_some hg).1 hgs
+  case faceDestroy =>
+    split
+    · exact fun g hg hs => h g (mem_faceRemove hg) hs
+    · exact h
+  case faceCreate =>
+    have key : ∀ c canon, FacesWF (t.faces ++ [newFace n c canon a]) := by
+      intro c canon g hg hs
+      rcases List.mem_append.1 hg with h' | h'
+      · exact h g h' hs
+      · simp at h'; subst h'
+        unfold newFace
+        cases a.flags <;> cases a.mask <;> simp [applyFlags_keep]
+    cases hc : a.uri.bind uriClass with
+    | none => exact h
+    | some c => cases c <;> first | exact key _ _ | exact h
+  all_goals exact h
+
+theorem effect_ids (t : Tables) (f : Nat) (v : Verb) (a : Args) (m n : Nat) (hm : v = .faceCreate → m = n)
+    (h : ∀ g ∈ t.faces, g.id < n) :
+    ∀ g ∈ (effect t f v a m).t.faces, g.id < n + (effect t f v a m).consumesId.toNat := by
+  cases v <;> simp only [effect]
+  case csConfig => cases a.capacity <;> simpa using h
+  case faceUpdate =>
+    cases hg : faceGet t.faces (targetFace a f) with
+    | none => simpa using h
+    | some fc =>
+      intro g hgm
+      rcases mem_faceSet hgm with hm' | rfl
+      · simpa using h g hm'
+      · rw [← faceAfter_eq, (faceAfter_keep fc a).1]
+        simpa using h fc (faceGet_some hg).1
+  case faceDestroy =>
+    split
+    · intro g hg; simpa using h g (mem_faceRemove hg)
+    · simpa using h
+  case faceCreate =>
+    have hmn := hm rfl
+    subst hmn
+    have key : ∀ c canon, ∀ g ∈ t.faces ++ [newFace m c canon a], g.id < m + 1 := by
+      intro c canon g hg
+      rcases List.mem_append.1 hg with h' | h'
+      · have := h g h'; omega
+      · simp at h'; subst h'; rw [newFace_id]; omega
+    cases hc : a.uri.bind uriClass with
+    | none => simpa using h
+    | some c => cases c <;> first | (simpa using key _ _) | (simpa using h)
+  all_goals simpa using h
+
+theorem effect_cs (t : Tables) (f : Nat) (v : Verb) (hasP : Bool) (a : Args) (n : Nat)
+    (hv : validity t f v hasP (.args a) = .valid) (h0 : 0 ≤ t.cs) (h1 : t.cs ≤ (maxInt : Int)) :
+    0 ≤ (effect t f v a n).t.cs ∧ (effect t f v a n).t.cs ≤ (maxInt : Int) := by
+  cases v <;> simp only [effect]
+  case csConfig =>
+    cases hk : a.capacity with
+    | none => exact ⟨h0, h1⟩
+    | some k =>
+      have hk' : k ≤ maxInt := by
+        simp only [validity, hk] at hv
+        by_cases hle : k ≤ maxInt
+        · exact hle
+        · exfalso
+          cases hasP <;> simp [hle] at hv
+      refine ⟨by simp, ?_⟩
+      simp only []
+      exact_mod_cast hk'
+  case faceUpdate => cases faceGet t.faces (targetFace a f) <;> exact ⟨h0, h1⟩
+  case faceDestroy => split <;> exact ⟨h0, h1⟩
+  case faceCreate =>
+    cases hc : a.uri.bind uriClass with
+    | none => exact ⟨h0, h1⟩
+    | some c => cases c <;> exact ⟨h0, h1⟩
+  all_goals exact ⟨h0, h1⟩
+
 /-- one step preserves the invariant -/
 theorem wf_step (st : St) (ext : Ext) (routed : Bool) (face : Nat) (name : Name) (p : Params) (h : StWF st) :
     StWF (sysStep st ext routed face name p).1 := by
-  obtain ⟨hwf, h0, h1⟩ := h
-  rcases sysStep_char st ext routed face name p hwf with ⟨hs, _⟩ | ⟨_, _, hs, hv⟩
-  · rw [hs]; exact ⟨hwf, h0, h1⟩
+  obtain ⟨⟨hwf, hid⟩, h0, h1⟩ := h
+  rcases sysStep_char st ext routed face name p ⟨hwf, hid⟩ with ⟨hs, _⟩ | ⟨_, _, hs, hv⟩
+  · rw [hs]; exact ⟨⟨hwf, hid⟩, h0, h1⟩
   · rw [hs, post_fst]
     cases hvo : verbOf name with
     | none =>
       simp only [hvo] at hv
-      have htb := hv.1
+      obtain ⟨htb, _, hnf, _⟩ := hv
       simp only [tbl, Prod.mk.injEq] at htb
       obtain ⟨_, _, _, hcs, hfa⟩ := htb
-      exact ⟨by rw [hfa]; exact hwf, by rw [hcs]; exact h0, by rw [hcs]; exact h1⟩
+      exact ⟨⟨by rw [hfa]; exact hwf, by rw [hfa, hnf]; exact hid⟩, by rw [hcs]; exact h0, by rw [hcs]; exact h1⟩
     | some v =>
       simp only [hvo] at hv
       split at hv
       · rcases char_cases hv with ⟨hval, a, hp, _, hag⟩ | ⟨_, hst, _⟩
-        · obtain ⟨_, _, _, _, _, _, _, _, hcs, hfa, _, _⟩ := hag
-          rw [StWF, hcs, hfa]
-          cases v <;> simp only [effect, tablesOf]
-          case ribRegister => exact ⟨hwf, h0, h1⟩
-          case ribUnregister => exact ⟨hwf, h0, h1⟩
-          case fibAdd => exact ⟨hwf, h0, h1⟩
-          case fibRemove => exact ⟨hwf, h0, h1⟩
-          case scSet => exact ⟨hwf, h0, h1⟩
-          case scUnset => exact ⟨hwf, h0, h1⟩
-          case csConfig =>
-            cases hk : a.capacity with
-            | none => exact ⟨hwf, h0, h1⟩
-            | some k =>
-              have hk' : k ≤ maxInt := by
-                rw [hp] at hval
-                simp only [validity, hk] at hval
-                by_cases hle : k ≤ maxInt
-                · exact hle
-                · exfalso
-                  cases hasParams name <;> simp [hle] at hval
-              refine ⟨hwf, by simp, ?_⟩
-              simp only []
-              exact_mod_cast hk'
-          case faceUpdate =>
-            cases hg : faceGet st.faces (targetFace a face) with
-            | none => exact ⟨hwf, h0, h1⟩
-            | some fc =>
-              refine ⟨?_, h0, h1⟩
-              intro g hgm hgs
-              rcases mem_faceSet hgm with hm | rfl
-              · exact hwf g hm hgs
-              · rw [← faceAfter_eq] at hgs ⊢
-                rw [(faceAfter_scheme fc a).1] at hgs
-                rw [(faceAfter_scheme fc a).2]
-                exact hwf fc (faceGet_some hg).1 hgs
-          case faceDestroy => exact ⟨fun g hg hs => hwf g (mem_faceRemove hg) hs, h0, h1⟩
-        · rw [hst]; exact ⟨hwf, h0, h1⟩
-      · rw [hv]; exact ⟨hwf, h0, h1⟩
+        · obtain ⟨_, _, _, _, _, _, _, _, hcs, hfa, _, _, hnf, _⟩ := hag
+          rw [hp] at hval
+          have hc := effect_cs (tablesOf st) face v (hasParams name) a (modelNewId v st) hval h0 h1
+          refine ⟨⟨?_, ?_⟩, by rw [hcs]; exact hc.1, by rw [hcs]; exact hc.2⟩
+          · rw [hfa]; exact effect_facesWF _ _ _ _ _ hwf
+          · rw [hfa, hnf]
+            apply effect_ids (tablesOf st) face v a (modelNewId v st) st.nextFace _ hid
+            intro hvc; subst hvc; rfl
+        · rw [hst]; exact ⟨⟨hwf, hid⟩, h0, h1⟩
+      · rw [hv]; exact ⟨⟨hwf, hid⟩, h0, h1⟩
 
 theorem wf_history (lh : Bool) (h : List Input) : StWF (runHistory (init lh) h) := by
   unfold runHistory
@@ -121,9 +184,9 @@ theorem handle_total (st : St) (ext : Ext) (routed : Bool) (face : Nat) (name : 
   | quiet h1 => rw [h1] at hout; cases hout
   | refused c e h1 => rw [h1] at hout; cases hout
   | listed pf mv v d h1 => rw [h1] at hout; cases hout
-  | accepted v a _ _ _ _ _ _ _ ho => rcases ho with ho | ⟨ho, _⟩ <;> (rw [ho] at hout; cases hout)
+  | accepted v a _ _ _ _ _ _ _ _ _ ho => rcases ho with ho | ⟨ho, _⟩ <;> (rw [ho] at hout; cases hout)
 
-example : (sysStep (init false) ⟨[], []⟩ true 2 (lhPrefix ++ [gc "strategy-choice", gc "set", ⟨8, []⟩])
+example : (sysStep (init false) ⟨[]⟩ true 2 (lhPrefix ++ [gc "strategy-choice", gc "set", ⟨8, []⟩])
     (.args { name := some [], strategy := some strategyPrefix })).2 = .ctrl 404 noArgs := by rfl
 
 /-! ### authorisation -/
@@ -183,7 +246,7 @@ theorem model_satisfies_spec (st : St) (ext : Ext) (routed : Bool) (face : Nat) 
     | quiet h1 => simp [cLive, h1]
     | refused c e h1 => simp [cLive, h1]
     | listed pf mv v d h1 => simp [cLive, h1]
-    | accepted v a _ _ _ _ _ _ _ ho => rcases ho with ho | ⟨ho, _⟩ <;> simp [cLive, ho]
+    | accepted v a _ _ _ _ _ _ _ _ _ ho => rcases ho with ho | ⟨ho, _⟩ <;> simp [cLive, ho]
   have hauth : cAuth o = true := by
     cases hs with
     | quiet _ h2 => simp [cAuth, Obs.changed, same_of_eq h2]
@@ -198,9 +261,10 @@ theorem model_satisfies_spec (st : St) (ext : Ext) (routed : Bool) (face : Nat) 
       · rename_i heq; simp at heq; exact absurd heq.1 hc
       · rfl
     | listed pf mv v d h1 => simp [cEffect, h1]
-    | accepted v a hv hp _ _ _ hm _ ho =>
+    | accepted v a hv hp _ _ _ nid hnid hm _ ho =>
       rcases ho with ho | ⟨ho, _⟩
-      · simp [cEffect, ho, hv, hp, hm]
+      · simp only [cEffect, ho, hv, hp, hnid]
+        simp [hm]
       · simp [cEffect, ho]
   have hnc : cNoChange o = true := by
     cases hs with
@@ -211,7 +275,7 @@ theorem model_satisfies_spec (st : St) (ext : Ext) (routed : Bool) (face : Nat) 
       · simp [Obs.changed, same_of_eq h2]
       all_goals simp_all
     | listed pf mv v d h1 h2 => simp [cNoChange, h1, Obs.changed, same_of_eq h2]
-    | accepted v a _ _ _ _ _ _ _ ho =>
+    | accepted v a _ _ _ _ _ _ _ _ _ ho =>
       rcases ho with ho | ⟨ho, hg⟩
       · simp [cNoChange, ho]
       · simp [cNoChange, ho, hg]
@@ -221,10 +285,10 @@ theorem model_satisfies_spec (st : St) (ext : Ext) (routed : Bool) (face : Nat) 
     | refused c e h1 => simp [cDataset, h1]
     | listed pf mv v d h1 h2 hd =>
       simp only [cDataset, h1, h2, hbefore]
-      rcases hd with rfl | rfl | rfl | rfl | rfl | rfl <;>
+      rcases hd with rfl | rfl | rfl | rfl | rfl | rfl | ⟨q, rfl⟩ <;>
         simp [datasetOk, tablesOf, sameRib, sameFib, sameSc, sameFaces]
       exact toU64_of_nonneg hwf.2.1 hwf.2.2
-    | accepted v a _ _ _ _ _ _ _ ho => rcases ho with ho | ⟨ho, _⟩ <;> simp [cDataset, ho]
+    | accepted v a _ _ _ _ _ _ _ _ _ ho => rcases ho with ho | ⟨ho, _⟩ <;> simp [cDataset, ho]
   have hval : cValidity o = true := by
     unfold cValidity
     cases hvo : verbOf o.name with
@@ -244,7 +308,7 @@ theorem model_satisfies_spec (st : St) (ext : Ext) (routed : Bool) (face : Nat) 
           · exact absurd hvd hnvd
           · simp [hc1, hc2]
           · rfl
-        | accepted v' a hv' _ hvd _ _ _ _ ho =>
+        | accepted v' a hv' _ hvd _ _ _ _ _ _ ho =>
           have : v' = v := by rw [hvo] at hv'; cases hv'; rfl
           subst this
           rw [hvd]
@@ -258,7 +322,7 @@ theorem model_satisfies_spec (st : St) (ext : Ext) (routed : Bool) (face : Nat) 
     | quiet _ h2 => rw [h2]; cases usable o.before <;> rfl
     | refused _ _ _ _ h2 => rw [h2]; cases usable o.before <;> rfl
     | listed _ _ _ _ _ h2 => rw [h2]; cases usable o.before <;> rfl
-    | accepted _ _ _ _ _ _ _ _ hu _ =>
+    | accepted _ _ _ _ _ _ _ _ _ _ hu _ =>
       cases hb : usable o.before
       · rfl
       · simp [hu hb]
@@ -280,20 +344,25 @@ theorem accepted_effect_exact (st : St) (ext : Ext) (routed : Bool) (face : Nat)
     (hwf : StWF st) (v : Verb) (hv : verbOf name = some v) (echo : Args)
     (h200 : (sysStep st ext routed face name p).2 = .ctrl 200 echo) :
     ∃ a, p = .args a ∧ validity (tablesOf st) face v (hasParams name) p = .valid ∧
-      echo = (effect (tablesOf st) face v a).echo ∧
-      (effect (tablesOf st) face v a).matches (tablesOf (sysStep st ext routed face name p).1) = true := by
+      echo = (effect (tablesOf st) face v a (newIdOf v echo)).echo ∧
+      (effect (tablesOf st) face v a (newIdOf v echo)).matches (tablesOf (sysStep st ext routed face name p).1) = true := by
   have hs := obs_shape st ext routed face name p hwf.1
   have hout : (obsOf st ext routed face name p).out = .ctrl 200 echo := by simp [obsOf, h200, outcomeOf]
   cases hs with
   | quiet h1 => rw [h1] at hout; cases hout
   | refused c e h1 hc => rw [h1] at hout; cases hout; exact absurd rfl hc
   | listed pf mv ver d h1 => rw [h1] at hout; cases hout
-  | accepted v' a hv' hp hval _ _ hm _ ho =>
+  | accepted v' a hv' hp hval _ _ nid hnid hm _ ho =>
     have : v' = v := by simp only [obsOf] at hv'; rw [hv] at hv'; cases hv'; rfl
     subst this
     rcases ho with ho | ⟨ho, _⟩
     · rw [ho] at hout; cases hout
-      exact ⟨a, by simpa [obsOf] using hp, by simpa [obsOf, Obs.hasP] using hval, rfl, by simpa [obsOf] using hm⟩
+      refine ⟨a, by simpa [obsOf] using hp, by simpa [obsOf, Obs.hasP] using hval, ?_, ?_⟩
+      · have := congrArg Effect.echo hnid
+        simpa [obsOf] using this.symm
+      · have hm' := hm
+        rw [← hnid] at hm'
+        simpa [obsOf] using hm'
     · rw [ho] at hout; cases hout
 
 /-- the documented defaults of rib/register: requesting face, origin 0 (app), cost 0,
@@ -327,7 +396,7 @@ theorem accepted_reports_200 (st : St) (ext : Ext) (face : Nat) (name : Name) (p
   | refused c e _ _ _ hnv =>
     have := (hnv v (by simpa [obsOf] using hv) (by simpa [obsOf, Obs.auth, tablesOf] using hauth) rfl).1
     exact absurd (by simpa [obsOf, Obs.hasP] using hval) this
-  | accepted v' a _ _ _ _ _ _ _ ho =>
+  | accepted v' a _ _ _ _ _ _ _ _ _ ho =>
     rcases ho with ho | ⟨ho, hg⟩
     · left
       simp only [obsOf] at ho
@@ -377,7 +446,7 @@ theorem non200_no_change (st : St) (ext : Ext) (routed : Bool) (face : Nat) (nam
   | quiet h1 => rw [h1] at hout; cases hout
   | refused _ _ _ _ h2 => simpa [obsOf] using h2
   | listed _ _ _ _ h1 => rw [h1] at hout; cases hout
-  | accepted _ _ _ _ _ _ _ _ _ ho =>
+  | accepted _ _ _ _ _ _ _ _ _ _ _ ho =>
     rcases ho with ho | ⟨ho, _⟩ <;> rw [ho] at hout <;> cases hout
     exact absurd rfl hc
 
@@ -443,6 +512,12 @@ theorem root_strategy_kept (st : St) (ext : Ext) (routed : Bool) (face : Nat) (n
               | cons c t => simp
           case csConfig => cases a.capacity <;> exact hroot
           case faceUpdate => cases faceGet st.faces (targetFace a face) <;> exact hroot
+          case faceDestroy =>
+            by_cases hx : (faceGet st.faces (a.faceId.getD 0)).isSome = true <;> simp only [hx, ↓reduceIte] <;> exact hroot
+          case faceCreate =>
+            cases hc : a.uri.bind uriClass with
+            | none => exact hroot
+            | some c => cases c <;> exact hroot
           all_goals exact hroot
         · rw [hst]; exact hroot
       · rw [hv]; exact hroot
@@ -558,7 +633,7 @@ theorem dataset_eq_tables (st : St) (ext : Ext) (routed : Bool) (face : Nat) (na
     rw [h1] at hout; cases hout
     refine ⟨hd, by simpa [obsOf] using h2, ?_⟩
     unfold cDataset at hds; rw [h1] at hds; simpa [obsOf] using hds
-  | accepted _ _ _ _ _ _ _ _ _ ho => rcases ho with ho | ⟨ho, _⟩ <;> rw [ho] at hout <;> cases hout
+  | accepted _ _ _ _ _ _ _ _ _ _ _ ho => rcases ho with ho | ⟨ho, _⟩ <;> rw [ho] at hout <;> cases hout
 
 /-! ### the table operations do what their names say (extensional view) -/
 
@@ -692,6 +767,35 @@ theorem scUnset_gone (sc : Sc) (n : Name) : ∀ e ∈ scUnset sc n, e.1 ≠ n :=
   simp only [scUnset, List.mem_filter] at he
   simpa using he.2
 
+/-- after faces/destroy nothing in the RIB refers to the destroyed face (what rib/list shows right
+    after the 200 answer), and no entry is left without routes -/
+theorem ribCleanFace_gone (rib : Rib) (f : Nat) :
+    ∀ e ∈ ribCleanFace rib f, e.2 ≠ [] ∧ ∀ r ∈ e.2, r.face ≠ f := by
+  intro e he
+  simp only [ribCleanFace, List.mem_filter, List.mem_map] at he
+  obtain ⟨⟨x, _, rfl⟩, hne⟩ := he
+  refine ⟨by simpa using hne, ?_⟩
+  intro r hr
+  simp only [List.mem_filter] at hr
+  simpa using hr.2
+
+/-- routes of other faces survive a face destruction -/
+theorem ribCleanFace_keeps (rib : Rib) (f : Nat) (n : Name) (rs : List Route) (r : Route)
+    (he : (n, rs) ∈ rib) (hr : r ∈ rs) (hf : r.face ≠ f) :
+    ∃ rs', (n, rs') ∈ ribCleanFace rib f ∧ r ∈ rs' := by
+  refine ⟨rs.filter (fun r => r.face != f), ?_, ?_⟩
+  · simp only [ribCleanFace, List.mem_filter, List.mem_map]
+    refine ⟨⟨(n, rs), he, rfl⟩, ?_⟩
+    simp only [Bool.not_eq_true', List.isEmpty_eq_false_iff]
+    intro hnil
+    have : r ∈ rs.filter (fun r => r.face != f) := List.mem_filter.2 ⟨hr, by simpa using hf⟩
+    rw [hnil] at this; cases this
+  · exact List.mem_filter.2 ⟨hr, by simpa using hf⟩
+
+/-- a created face gets the face table's next id, which no existing face has -/
+theorem created_face_fresh (st : St) (hwf : StWF st) : faceGet st.faces st.nextFace = none :=
+  faceGet_none_of_below hwf.1.2
+
 /-! ### non-vacuity: concrete reachable situations meeting the hypotheses above -/
 
 def exRegister : Name := lhPrefix ++ [gc "rib", gc "register", ⟨8, []⟩]
@@ -700,26 +804,26 @@ def exArgs : Args := { name := some [gc "a"], cost := some 5 }
 -- accepted_effect_exact / accepted_reports_200: a local app registers /a with cost 5
 example : verbOf exRegister = some .ribRegister ∧ authorised false initFaces 2 exRegister = true ∧
     validity (tablesOf (init false)) 2 .ribRegister (hasParams exRegister) (.args exArgs) = .valid := by decide
-example : (sysStep (init false) ⟨[], []⟩ true 2 exRegister (.args exArgs)).2 =
+example : (sysStep (init false) ⟨[]⟩ true 2 exRegister (.args exArgs)).2 =
     .ctrl 200 { name := some [gc "a"], faceId := some 2, origin := some 0, cost := some 5, flags := some 1 } := by rfl
-example : (sysStep (init false) ⟨[], []⟩ true 2 exRegister (.args exArgs)).1.rib = [([gc "a"], [⟨2, 0, 5, 1, none⟩])] := by rfl
+example : (sysStep (init false) ⟨[]⟩ true 2 exRegister (.args exArgs)).1.rib = [([gc "a"], [⟨2, 0, 5, 1, none⟩])] := by rfl
 
 -- bad_params_4xx_no_change: a face that does not exist; an MTU of 10; a capacity of 2^63
 example : validity (tablesOf (init false)) 2 .ribRegister true (.args { exArgs with faceId := some 50 }) = .invalid := by decide
 example : validity (tablesOf (init false)) 2 .faceUpdate true (.args { faceId := some 3, mtu := some 10 }) = .invalid := by decide
 example : validity (tablesOf (init false)) 2 .csConfig true (.args { capacity := some (2 ^ 63) }) = .invalid := by decide
-example : (sysStep (init false) ⟨[], []⟩ true 2 (lhPrefix ++ [gc "faces", gc "update", ⟨8, []⟩])
+example : (sysStep (init false) ⟨[]⟩ true 2 (lhPrefix ++ [gc "faces", gc "update", ⟨8, []⟩])
     (.args { faceId := some 3, mtu := some 10 })).2 = .ctrl 409 noArgs := by rfl
 
 -- state_changes_only_if_authorised: the same registration from the non-local face 4 is dropped,
 -- and under /localhop/nfd it is dropped when localhop management is off (even if routed)
-example : (sysStep (init false) ⟨[], []⟩ true 4 exRegister (.args exArgs)).1.rib = [] := by rfl
-example : (sysStep (init false) ⟨[], []⟩ true 5 (lpPrefix ++ [gc "rib", gc "register", ⟨8, []⟩]) (.args exArgs)).1.rib = [] := by rfl
-example : (sysStep (init true) ⟨[], []⟩ true 5 (lpPrefix ++ [gc "rib", gc "register", ⟨8, []⟩]) (.args exArgs)).1.rib =
+example : (sysStep (init false) ⟨[]⟩ true 4 exRegister (.args exArgs)).1.rib = [] := by rfl
+example : (sysStep (init false) ⟨[]⟩ true 5 (lpPrefix ++ [gc "rib", gc "register", ⟨8, []⟩]) (.args exArgs)).1.rib = [] := by rfl
+example : (sysStep (init true) ⟨[]⟩ true 5 (lpPrefix ++ [gc "rib", gc "register", ⟨8, []⟩]) (.args exArgs)).1.rib =
     [([gc "a"], [⟨5, 0, 5, 1, none⟩])] := by rfl
 
 -- dataset_eq_tables: rib/list after the registration lists it
-example : (sysStep (sysStep (init false) ⟨[], []⟩ true 2 exRegister (.args exArgs)).1 ⟨[], []⟩ true 2
+example : (sysStep (sysStep (init false) ⟨[]⟩ true 2 exRegister (.args exArgs)).1 ⟨[]⟩ true 2
     (lhPrefix ++ [gc "rib", gc "list"]) .undecodable).2 =
     .dataset lhPrefix "rib/list" 0 (.rib [([gc "a"], [⟨2, 0, 5, 1, none⟩])]) := by rfl
 
@@ -729,5 +833,20 @@ example : (faceUpdate (init false) 2 exRegister (.args { faceId := some 3, mtu :
 
 -- strategy_unset_root_rejected
 example : hasParams exRegister = true := by decide
+
+-- faces/create: a unicast UDP face to a loopback address with MTU 1000 gets id 8 and is listed
+def exCreate : Name := lhPrefix ++ [gc "faces", gc "create", ⟨8, []⟩]
+example : validity (tablesOf (init false)) 2 .faceCreate true
+    (.args { uri := some (strBytes "udp4://127.0.0.1:7101"), mtu := some 1000 }) = .valid := by decide
+example : ((sysStep (init false) ⟨[]⟩ true 2 exCreate (.args { uri := some (strBytes "udp4://127.0.0.1:7101"), mtu := some 1000 })).1.faces.map
+    fun f => (f.id, f.mtu)) = [(1, 8800), (2, 8800), (3, 8800), (4, 8800), (5, 8800), (6, 8800), (7, 8800), (8, 1000)] := by rfl
+-- … MTU 10 is refused (406), the remote URI of face 2 conflicts (409)
+example : validity (tablesOf (init false)) 2 .faceCreate true
+    (.args { uri := some (strBytes "udp4://127.0.0.1:7101"), mtu := some 10 }) = .invalid := by decide
+example : validity (tablesOf (init false)) 2 .faceCreate true
+    (.args { uri := some (strBytes "udp4://127.0.0.1:7001") }) = .invalid := by decide
+-- faces/query for local faces; rib/announce with a prefix announcement object: 501
+example : ((sysStep (init false) ⟨[]⟩ true 2 (lhPrefix ++ [gc "faces", gc "query", ⟨8, []⟩]) (.filter { scope := some 1 })).1.vFaces) = 1 := by rfl
+example : (sysStep (init false) ⟨[]⟩ true 2 (lhPrefix ++ [gc "rib", gc "announce", ⟨2, []⟩]) (.app .data)).2 = .ctrl 501 noArgs := by rfl
 
 end Ndn.C17
